@@ -92,6 +92,22 @@ func forStrings(thorough bool, maxLen int, f func(key, s string)) {
 		ew("0" + w + "x1")
 		ew(w + w + "7" + w + w)
 	}
+	// A: characters that alias digits or letters under bit tricks (|0x20, &^0x20,
+	// -0x40, |0x80, +0x100), the +-1 neighbours of every digit/letter range, and
+	// the Unicode digits / case-folding specials, placed after, before and between
+	// valid digits of every radix class
+	ea := emit("A")
+	for _, core := range aliasCores {
+		rs := []rune(core)
+		for _, a := range aliasChars() {
+			ea(core + string(a))
+			ea(string(a) + core)
+			if len(rs) > 1 {
+				ea(string(rs[:len(rs)-1]) + string(a) + string(rs[len(rs)-1:]))
+				ea(string(rs[:1]) + string(a) + string(rs[1:]))
+			}
+		}
+	}
 	// T: rounding ties and range boundaries written out as decimal strings
 	et := emit("T")
 	for _, s := range tieStrings() {
@@ -224,3 +240,27 @@ func bigIntStrings() []string {
 var radixSweep = []string{"0", "1", "10", "11", "z", "Z", "zz", "9", "a", "A", "1z", "-10", "+10", "0x10", "0X1f", "  10", "10.5", "1e3", "123456789abcdefghijklmnopqrstuvwxyz",
 	"ZYXWVUTSRQPONMLKJIHGFEDCBA9876543210", "100000000000000000000", "9007199254740993", "18446744073709551616", "ffffffffffffffff", "-0", "", "-", "0x", "0x0", "-0x", "g", "G", "2", "7", "8", "f", "v", "w",
 	"1" + strings.Repeat("0", 52) + "1", "10000000000000000000000000000000000000000000000000000", "20000000000000", "-zz", "1_0", "1 0", "00", "007", "\uff10", "1\uff10"}
+
+var aliasCores = []string{"7", "10", "1f", "0x1f", "z", "zz", "9", "0", "-5", "1.5", "1e5", "Infinity", "0xfffffffffffffffffff", "101", "77", "0X1F", "+12"}
+
+func aliasChars() []rune {
+	var l []rune
+	add := func(lo, hi rune) {
+		for c := lo; c <= hi; c++ {
+			l = append(l, c)
+		}
+	}
+	add(0x00, 0x1F)                                                                                               // '0'..'9' &^ 0x20 = U+0010..19; 'A'..'Z' - 0x40 = U+0001..1A
+	l = append(l, '/', ':', '@', '[', '`', '{', 'G', 'g', 'Z', 'z', '_', '$', 0x7F)                               // +-1 neighbours of the digit and letter ranges
+	add(0xB0, 0xB9)                                                                                               // digits | 0x80
+	l = append(l, 0xC1, 0xC6, 0xDA, 0xE1, 0xE6, 0xFA)                                                             // letters | 0x80
+	add(0x130, 0x139)                                                                                             // digits + 0x100 (U+0130 is also the dotted capital I, U+0131 the dotless i)
+	l = append(l, 0x141, 0x146, 0x161, 0x166, 0x17F, 0x212A, 0x212B)                                              // letters + 0x100, long s, Kelvin, Angstrom
+	add(0x660, 0x669)                                                                                             // Arabic-Indic digits
+	add(0x6F0, 0x6F9)                                                                                             // extended Arabic-Indic digits
+	add(0x966, 0x96F)                                                                                             // Devanagari digits
+	add(0xFF10, 0xFF19)                                                                                           // full-width digits
+	l = append(l, 0xFF21, 0xFF26, 0xFF3A, 0xFF41, 0xFF46, 0xFF5A, 0xFF38, 0xFF58, 0xFF0B, 0xFF0D, 0xFF0E, 0xFF45) // full-width letters, x, signs, point, e
+	l = append(l, 0x2070, 0x00B2, 0x2080, 0x2460, 0x1D7CE, 0x1D7D8)                                               // superscript/subscript/circled/mathematical digits
+	return l
+}
